@@ -231,7 +231,7 @@ func c18Program(r *rand.Rand, d int, fault string, useModule bool, handledFirst 
 }
 
 func checkC18(c *Ctx) {
-	c.rule = "fixed location cases (35 hand-written programs: loop / branch conditions on later passes, hoisted definitions, failing imports and faults down a chain of modules, missing 输入, faults at call entry, lines after empty annotations, leftover indented lines) with every expected (module, line) written down; runtime faults: call chains main -> 层1 -> … -> 层d (d = 0..4; levels >= 2 optionally in an imported module, level 1 optionally a type method) whose innermost body raises one of 11 fault kinds at a generator-known statement (plain, inside 如果, inside 遍历), with calls that returned earlier, an earlier handled exception, and multi-line literals / comments / bracket continuations / wide characters before the fault; rendered with LF, CR, CRLF or LFCR line ends, TAB or 4-space indents, blank lines and comments. The DisplayError text is parsed into (module, line, quoted text) entries and compared with the reference evaluator's call stack at the fault mapped to physical lines by the renderer: same entries in either printing order, no entry for a returned call, quoted text = that physical line. Faults inside a handler block are compared exactly as well: the level whose handler runs contributes the handler's current line only (not the statement whose exception was handled). Syntax faults: an unknown character / stray closing bracket planted at a known offset of a valid program: line, quoted line and caret column (display width of the text before the character; ASCII 1, CJK/full-width 2). distinct_nontrivial = distinct (fault kind, depth, module/method/handled flags, line-end style, fault line)"
+	c.rule = "fixed location cases (35 hand-written programs: loop / branch conditions on later passes, hoisted definitions, failing imports and faults down a chain of modules, missing 输入, faults at call entry, lines after empty annotations, leftover indented lines) with every expected (module, line) written down; runtime faults: call chains main -> 层1 -> … -> 层d (d = 0..4; levels >= 2 optionally in an imported module, level 1 optionally a type method) whose innermost body raises one of 11 fault kinds at a generator-known statement (plain, inside 如果, inside 遍历), with calls that returned earlier, an earlier handled exception, and multi-line literals / comments / bracket continuations / wide characters before the fault; rendered with LF, CR, CRLF or LFCR line ends, TAB or 4-space indents, blank lines and comments. The DisplayError text is parsed into (module, line, quoted text) entries and compared with the reference evaluator's call stack at the fault mapped to physical lines by the renderer: same entries in either printing order, no entry for a returned call, quoted text = that physical line. Faults inside a handler block are compared exactly as well: the level whose handler runs contributes the handler's current line only (not the statement whose exception was handled). Syntax faults: an unknown character / stray closing bracket planted at a known offset of a valid program: line, quoted line and caret column (display width of the text before the character; ASCII 1, CJK/full-width 2); a stray bracket after a text of 1-8 characters drawn from every width class that has been stable since the first East Asian Width tables (printable ASCII incl. ~, unified ideographs and extension A up to U+4DB5, kana, CJK symbols, Hangul syllables, full-width forms and signs), the first and last code point of each class among them. distinct_nontrivial = distinct (fault kind, depth, module/method/handled flags, line-end style, fault line)"
 	c.assumptions = []string{"fault statements occupy one physical line", "unterminated literals and EOF positions are not judged", "frames that have not started a statement yet (line unknown) are compared by module only"}
 	rng := c.Rand("c18")
 	type rcase struct {
@@ -639,7 +639,12 @@ func displayWidth(s string) (int, bool) {
 			w++
 		case ch == '\t':
 			return 0, false
-		case (ch >= 0x4E00 && ch <= 0x9FFF) || (ch >= 0xFF01 && ch <= 0xFF60) || (ch >= 0x3000 && ch <= 0x303F) || (ch >= 0x3040 && ch <= 0x30FF):
+		case (ch >= 0x302A && ch <= 0x302F) || ch == 0x3099 || ch == 0x309A:
+			return 0, false // combining marks: not judged
+		case (ch >= 0x4E00 && ch <= 0x9FFF) || (ch >= 0xFF01 && ch <= 0xFF60) || (ch >= 0x3000 && ch <= 0x303E) || (ch >= 0x3041 && ch <= 0x3096) || (ch >= 0x309B && ch <= 0x30FF) ||
+			(ch >= 0x3400 && ch <= 0x4DB5) || (ch >= 0xAC00 && ch <= 0xD7A3) || (ch >= 0xFFE0 && ch <= 0xFFE6):
+			// East Asian Width W / F since the first versions of UAX #11 (unified ideographs and
+			// extension A, kana, CJK symbols and punctuation, Hangul syllables, full-width forms)
 			w += 2
 		default:
 			return 0, false // ambiguous width: not judged
@@ -700,6 +705,37 @@ func checkC18Syntax(c *Ctx) {
 		}
 		src := append(append(append([]rune{}, rs[:off]...), ins...), rs[off:]...)
 		cases = append(cases, scase{src, off, kind})
+	}
+	// the column marker after characters of every width class, the first and last code point of
+	// each class among them: a stray closing bracket follows a text whose characters are drawn
+	// from printable ASCII (one column) and the wide / full-width classes (two columns)
+	{
+		borders := []rune{0x20, 0x21, 0x41, 0x7A, 0x7B, 0x7C, 0x7D, 0x7E, 0x3000, 0x3001, 0x303E, 0x3041, 0x3096, 0x30A0, 0x30FF, 0x3400, 0x4DB5, 0x4E00, 0x9FA5, 0x9FFF, 0xAC00, 0xD7A3, 0xFF01, 0xFF5E, 0xFF5F, 0xFF60, 0xFFE0, 0xFFE6}
+		pools := [][2]rune{{0x20, 0x7E}, {0x4E00, 0x9FFF}, {0x3041, 0x30FF}, {0xFF01, 0xFF60}, {0xAC00, 0xD7A3}, {0x3400, 0x4DB5}, {0x3000, 0x303E}, {0xFFE0, 0xFFE6}}
+		mk := func(prefix []rune) {
+			for _, ch := range prefix {
+				if ch == '`' || ch == '「' || ch == '」' || ch == '『' || ch == '』' || ch == '《' || ch == '》' {
+					return
+				}
+			}
+			head := "令甲 = 1\n令丙 = 2\n"
+			line := "令乙 = 「" + string(prefix) + "」 + "
+			src := []rune(head + line + "）\n令丁 = 3\n")
+			cases = append(cases, scase{src, len([]rune(head + line)), "stray-bracket-after-text"})
+		}
+		for _, b := range borders {
+			mk([]rune{b})
+			mk([]rune{'a', b, b, '中'})
+		}
+		for i := 0; i < c.Pick(600, 20000); i++ {
+			n := 1 + rng.Intn(8)
+			pre := make([]rune, n)
+			for k := range pre {
+				pl := pools[rng.Intn(len(pools))]
+				pre[k] = pl[0] + rune(rng.Intn(int(pl[1]-pl[0])+1))
+			}
+			mk(pre)
+		}
 	}
 	reqs := make([]Req, len(cases))
 	for i, cs := range cases {
